@@ -484,7 +484,13 @@ def cli_pass(names, pairs, cfg, maxpairs, d, out, tag):
     lanes = split_lanes(pairs, cfg)
     files = write_inputs(ind, lib, pairs, cfg['mates'], gz=True, cfg=cfg) if len(lanes) == 1 else \
         write_inputs_illumina(ind, lib, lanes, cfg['mates'], cfg)
-    argv = ['demux.py'] + files + ['-use', ','.join(names), '--y', '-o', out]
+    if cfg.get('cli_extra_lib') and tag == 'main':
+        # a second library in the same invocation whose name contains the first one; its records carry foreign ids
+        other = relabel(pairs[:max(1, len(pairs) // 2)], len(pairs))
+        files = files + write_inputs(ind, lib + '1', other, cfg['mates'], gz=True, cfg=cfg)
+    if cfg.get('cli_reverse'):
+        files = files[::-1]                 # demux.py sorts its arguments itself
+    argv = ['demux.py'] + files + (['-use', ','.join(names)] if not (cfg.get('cli_auto') and tag == 'main') else []) + ['--y', '-o', out]
     if cfg['mates'] == 1:
         argv.append('--se')
     if not cfg['hasRej']:
@@ -509,6 +515,19 @@ def cli_pass(names, pairs, cfg, maxpairs, d, out, tag):
     import gc
     gc.collect()         # handles left open by a crashed run are flushed by their finalisers, as at interpreter exit
     return raised
+
+
+def autodetect(loader, pairs, cfg, workdir):
+    """which strategies demux.py selects without -use (its lines 316-339, through the loader of this process)"""
+    d = tempfile.mkdtemp(prefix='auto_', dir=workdir)
+    files = write_inputs(d, cfg['lib'], pairs, cfg['mates'], gz=True, cfg=cfg)
+    libs = {cfg['lib']: {'single_file': dict(('R%d' % (k + 1), [f]) for k, f in enumerate(files))}}
+    with contextlib.redirect_stdout(io.StringIO()):
+        processed, ylds = loader.dmx.detectLibYields(libs, testReads=2000, maxAutoDetectMethods=1, minAutoDetectPct=2, verbose=False)
+        sel = loader.dmx.selectedStrategiesBasedOnYield(ylds[cfg['lib']]['processedReadPairs'], ylds[cfg['lib']]['strategyYields'],
+                                                        maxAutoDetectMethods=1, minAutoDetectPct=2)
+    shutil.rmtree(d, True)
+    return list(sel)
 
 
 def run_cli(names, pairs, cfg, workdir):
@@ -537,6 +556,7 @@ def run_event(tid, grp, entry, names, pairs, acc, cfg, obs, extra=None):
          'prior': cfg.get('prior') or '', 'prior_k': int(cfg.get('prior_k') or 0), 'lanes': int(cfg.get('lanes', 1)),
          'lane_split': int(cfg.get('lane_split', 0)), 'stale_dir': bool(cfg.get('stale_dir')),
          'eol': cfg.get('eol') or 'lf', 'nofinalnl': bool(cfg.get('nofinalnl')), 'trailing_blank': bool(cfg.get('trailing_blank')), 'nofile': int(cfg.get('nofile') or 0),
+         'cli_auto': bool(cfg.get('cli_auto')), 'cli_reverse': bool(cfg.get('cli_reverse')), 'cli_extra_lib': bool(cfg.get('cli_extra_lib')),
          'strategies': names, 'lib': cfg['lib'], 'N': len(pairs),
          'classes': [[p['hdr'], p['content']] for p in pairs],
          'inp': [{'id': p['id'], 'h': [r['h'] for r in p['m']], 'p': [r['plus'] for r in p['m']], 'm': [{'seq': r['seq'], 'qual': r['qual']} for r in p['m']]}
@@ -803,7 +823,16 @@ def main():
                 cfg.update(prior='other')
             elif i % 4 == 0 and i:
                 cfg.update(lanes=2, lane_split=rng.randint(1, n - 1), percell=True, maxpairs=rng.choice([0, rng.randint(1, n)]))
-            rec.group(loader, [name], pairs, [cfg], workdir, entry='cli')
+            if quick or i in (4, 7):
+                cfg['cli_reverse'] = True
+            if i == 6:
+                cfg['cli_extra_lib'] = True
+            use = [name]
+            if quick or i in (3, 4, 6):     # no -use: probe pass over the library, then the best scoring strategy
+                sel = autodetect(loader, pairs, cfg, workdir)
+                if len(sel) == 1:
+                    cfg['cli_auto'], use = True, sel
+            rec.group(loader, use, pairs, [cfg], workdir, entry='cli')
     finally:
         rec.f.close()
         shutil.rmtree(workdir, True)
@@ -824,7 +853,8 @@ def replay(rec, case_path, workdir):
     cfgs = [{'lib': e['lib'], 'mates': e['mates'], 'gz': e.get('gz', True), 'fh': e.get('fh', 500), 'prune': e.get('prune', 0),
              'prior': e.get('prior') or None, 'prior_k': e.get('prior_k', 0), 'lanes': e.get('lanes', 1),
              'lane_split': e.get('lane_split', 0), 'stale_dir': e.get('stale_dir', False), 'eol': e.get('eol', 'lf'),
-             'nofinalnl': e.get('nofinalnl', False), 'trailing_blank': e.get('trailing_blank', False), 'nofile': e.get('nofile', 0), 'hasRej': e['hasRej'],
+             'nofinalnl': e.get('nofinalnl', False), 'trailing_blank': e.get('trailing_blank', False), 'cli_auto': e.get('cli_auto', False),
+             'cli_reverse': e.get('cli_reverse', False), 'cli_extra_lib': e.get('cli_extra_lib', False), 'nofile': e.get('nofile', 0), 'hasRej': e['hasRej'],
              'percell': e['percell'], 'maxpairs': e['maxpairs']} for e in evs]
     rec.group(loader, ev['strategies'], pairs, cfgs, workdir, entry=ev.get('entry', 'api'),
               extra={'scn': ev['scn']} if 'scn' in ev else None)
